@@ -13,7 +13,7 @@ import sys
 import time
 
 VERIF = os.path.dirname(os.path.dirname(os.path.abspath(__file__)))
-TARGET = "/tmp/se-target"
+TARGET = os.environ.get("SE_TARGET", "/tmp/se-target")
 
 
 def sh(cmd, cwd=None, env=None, timeout=1800):
